@@ -1751,11 +1751,11 @@ pub fn run(ctx: &Ctx, replay: Option<&Value>) -> i32 {
     let shape_cases: u64 = shape_hist.values().sum();
     if shape_cases > 0 {
         ctx.note(format!(
-            "host-contract SHAPE violations (Merkle path whose length differs from the depth operand; information only, not counted as violations): {} runs; observed classes: {}",
+            "answers of the wrong SHAPE (Merkle path whose length differs from the depth operand): {} runs, judged like every other dishonest answer (refusing is fine, completing with an untrue result is a violation); observed classes: {}",
             shape_cases,
             shape_hist.iter().map(|(k, v)| format!("[{k}] x{v}")).collect::<Vec<_>>().join("; ")
         ));
-        ctx.note("reading: MPVERIFY (mtree_get / mtree_verify) never compares the length of the path it receives with the depth operand d, so a host that answers with a consistent (node, path) pair of ANOTHER depth makes the run complete for a node that is not at depth d; MRUPDATE (mtree_set) asserts path.len() == d and panics instead");
+        ctx.note("history: before fix 61b71ef MPVERIFY (mtree_get / mtree_verify) never compared the length of the path it receives with the depth operand, so a consistent (node, path) pair of ANOTHER depth made the run complete for a node that is not at that depth (F-C09-b); MRUPDATE asserted the length and panicked");
     }
 
     let t_mtree = ctx.elapsed();
@@ -1839,7 +1839,7 @@ pub fn run(ctx: &Ctx, replay: Option<&Value>) -> i32 {
             "a panic or an ExecutionError both count as 'does not complete'",
             "only executions are examined (processor::execute incl. trace construction); proving is not part of this check",
             "u32 counting instructions are only given operands < 2^32 and u64 procedures only 32-bit limbs (documented as undefined / unchecked otherwise)",
-            "a Merkle path of the wrong length is a violation of the Host contract's shape and is reported as information only",
+            "a Merkle path of the wrong length breaks the Host contract's shape; the VM may refuse it in any way, but completing with an untrue result is a violation (judged since F-C09-b)",
             "none of the instructions in scope reads the advice map, so advice-map content is not varied; the advice stack below the hint is empty (a longer advice stack is only used by the adv_push / adv_loadw / adv_pipe family)",
         ],
     )
